@@ -194,6 +194,7 @@ static void decode_case(LZ4F_dctx* dctx, const u8* bytes, size_t n, size_t dictS
     ref = decode_frame(dctx, bytes, n, 0, skipChecksums, g_dictbuf + (70000 - dictSize), dictSize, ps); n_decodes++;
     if (ref.verdict == 0) n_dec_ok++; else if (ref.verdict == 1) n_dec_err++; else n_dec_incomplete++;
     r.n = 3; rec_int(&r, ref.verdict); rec_int(&r, (long long)ref.consumed); rec_bytes(&r, ref.out.p, ref.verdict == 0 ? ref.out.n : 0);
+    rec_int(&r, (ref.verdict == 1 && LZ4F_isError(ref.errcode)) ? (long long)LZ4F_getErrorCode(ref.errcode) : 0);   /* arg 6: LZ4F error enum */
     if (ref.noprogress) c_fail(&r, "decoder_no_progress");
     for (p = 1; p < npol; p++) {
         int policy = (p == 1 && n <= 4000) ? 1 : (int)(2 + rndn(4)); decres_t d;
